@@ -325,7 +325,7 @@ ARGS = ('x', '', ' ', 'x y', ':x', 'x:y', '\r', 'a\rb', '\n', 'a\nb', 'x\n', 'x\
 PREFIXES = ARGS + ('n!u@h', 'n@h', 'irc.example.org', 'n!u', 'n!@h', '!u@h')     # every shape a prefix can take (server name, nick, nick@host, ...)
 PARSED_BACK = ('ok', 'from_string-raises', 'from_string-differs')   # parsemsg() gave the fields back
 REFUSALS = (irc_message.Error, irc_utils.Error, ValueError)
-BENIGN = ('x', 'x y', 'x:y', '\u00e9')
+BENIGN = ('x', 'x y', 'x:y', '\u00e9', 'x ', 'x\t')
 
 
 def ctor_table():
@@ -871,7 +871,7 @@ def run(tier, seed, workers):
         'line_server_interleavings': 'all', 'irc_alphabet': [repr(a) for a in ARGS],
         'irc_Message_CMD_arity_max': 4, 'irc_Message_command_x_prefix_arity_max': 2 if tier == 'quick' else 3,
         'irc_constructors': sorted(CTORS), 'irc_varargs_extra_max': 2 if tier == 'quick' else 3,
-        'irc_cases': exp_ir, 'pipeline_alphabet': list(BENIGN), 'pipeline_cuts': 'one piece, every single cut, byte-at-a-time; client and server mode',
+        'irc_cases': exp_ir, 'pipeline_alphabet': [repr(b) for b in BENIGN], 'pipeline_cuts': 'one piece, every single cut, byte-at-a-time; client and server mode',
     }
     return st
 
